@@ -175,12 +175,16 @@ class Module:
         self.tree = ast.parse(self.src, filename=str(path))
         # helpers that no rule knows (extract-function refactorings) are dissolved into their callers: see inline.py
         from .inline import apply as dissolve_helpers
-        self.inlined: list[str] = dissolve_helpers(self.tree) if inline else []
+        self.inlined: list[str] = dissolve_helpers(self.tree, name.split('sigpyproc.', 1)[-1] if name != 'sigpyproc' else '') if inline else []
         # a helper every call of which was dissolved no longer exists as far as the rules are concerned
         self.dissolved: set[str] = set()
         if self.inlined:
-            still_called = {(dotted(c.func) or "").split(".")[-1] for c in ast.walk(self.tree) if isinstance(c, ast.Call)}
-            self.dissolved = {n for n in self.inlined if n not in still_called}
+            called_names = {c.func.id for c in ast.walk(self.tree) if isinstance(c, ast.Call) and isinstance(c.func, ast.Name)}
+            called_attrs = {c.func.attr for c in ast.walk(self.tree) if isinstance(c, ast.Call) and isinstance(c.func, ast.Attribute)}
+            for q in set(self.inlined):
+                still = (q.split(".")[-1] in called_attrs) if "." in q else (q in called_names or q in called_attrs)
+                if not still:
+                    self.dissolved.add(q)
         set_parents(self.tree)
         self.imports: dict[str, str] = {}
         self.funcs: dict[str, FuncInfo] = {}
@@ -212,7 +216,7 @@ class Module:
             ci = ClassInfo(self, st)
             self.classes[st.name] = ci
             for sub in st.body:
-                if isinstance(sub, ast.FunctionDef) and sub.name not in self.dissolved:
+                if isinstance(sub, ast.FunctionDef) and f"{st.name}.{sub.name}" not in self.dissolved:
                     q = f"{st.name}.{sub.name}"
                     fi = FuncInfo(self, q, sub, ci)
                     # property setters etc. share a name: keep the first (getter)
